@@ -1062,7 +1062,14 @@ func (k checker) ladder(next func() bool) {
 				}
 				// *os.File / ply.Load / ply.Save do real I/O: the rungs up to 2^12+1 and the top rung only
 				files := n <= 4097 || n == sizes[len(sizes)-1]
-				k.eval(Case{Scope: "L/size-ladder/" + gen, Mesh: MeshCfg{Gen: gen, N: n, Attrs: attrs}, W: w, Readers: true, Files: files})
+				lc := Case{Scope: "L/size-ladder/" + gen, Mesh: MeshCfg{Gen: gen, N: n, Attrs: attrs}, W: w, Readers: true, Files: files}
+				k.eval(lc)
+				if n >= 8191 {
+					// the same rung with the process limited to three processors (the job's default is two):
+					// work split by the processor count leaves a different remainder
+					lc.Files = false
+					k.c.WithProcs(3, func() { k.eval(lc) })
+				}
 			}
 		}
 	}
